@@ -567,6 +567,63 @@ def parents(f):
         p = p.parent
 
 
+PAREN_PROGS = ['with ((a, b)): pass\n', 'async def f():\n    async with ((a, b)): pass\n    async for i in ((j, k)): pass\n', 'with ((a, b)), c: pass\n', 'with (a, b) as c: pass\n', 'for x in ((a, b)): pass\n',
+               'x = [i for i in (items or []) if i]\n', 'x = [i for i in (a if b else c) if i if j]\n', 'def g():\n    x = [i for i in (yield) if i]\n', 'x = {k: v for k, v in ((p, q)) if k if v}\n',
+               'x = (lambda: (y))()\n', 'x = ((a, b))[0]\n', 'assert (a, b), (c)\n', 'del ((a)), (b)\n', 'x = y = ((a, b))\n', 'return_ = ((yield_))\n', 'class K(((A))): pass\n', 'f(((a)), *((b)), k=((c)))\n',
+               'x = (a) if (b) else (c)\n', 'x = not (a)\n', 'x = (a)[(b):(c)]\n', 'raise ((E)) from ((c))\n', 'match (v):\n    case ((a)) if ((g)): pass\n']
+
+
+def stage_paren_roundtrip(ctx: Ctx):
+    """deterministic: programs whose children carry grouping parentheses that are NOT part of the node (and items that need them to stay one item): every single child replaced
+    by its own copy / pure AST / own source, every sub-range of every list field cut and put back where it was: the structure is the original and the source parses to the tree"""
+    import fst
+    for src in PAREN_PROGS:
+        ref = ast.parse(src)
+        probe = fst.FST(src, 'exec')
+        for f in probe.walk(True):
+            if f.parent is None or isinstance(f.a, (ast.expr_context, ast.operator, ast.unaryop, ast.cmpop, ast.boolop)):
+                continue
+            path = probe.child_path(f)
+            if isinstance(f.a, (ast.expr, ast.pattern, ast.withitem, ast.arg, ast.keyword, ast.alias)):
+                for how in ('copy', 'copy_ast', 'own_src'):
+                    m = fst.FST(src, 'exec')
+                    g = m.child_from_path(path)
+                    rec = {'src': src, 'node': repr(g), 'put_back': how}
+                    try:
+                        code = g.copy() if how == 'copy' else g.copy_ast() if how == 'copy_ast' else g.own_src()
+                        g.replace(code)
+                    except Exception as e:
+                        ctx.dist['paren-roundtrip:refused'] = ctx.dist.get('paren-roundtrip:refused', 0) + 1
+                        continue
+                    ctx.tick(('paren-rt', src, str(path), how), 'roundtrip:paren-child')
+                    d = reparse_diffs(m) or cmp_ast(m.a, ref, positions=False)
+                    if d:
+                        ctx.violation(f'roundtrip|paren-child|{type(g.parent.a).__name__ if g.parent else None}.{f.pfield.name}', 'replacing a child by what was read from it does not restore the tree',
+                                      {**rec, 'after': m.src, 'diffs': d})
+            for fld in f.a._fields:
+                v = getattr(f.a, fld, None)
+                if not (isinstance(v, list) and v and isinstance(v[0], ast.AST)) or fld in ('body', 'orelse', 'finalbody', 'handlers', 'cases', 'ops', 'comparators', 'keys', 'values', 'defaults', 'kw_defaults',
+                                                                                             'posonlyargs', 'kwonlyargs', 'kwd_patterns') and not isinstance(f.a, ast.BoolOp):
+                    continue
+                for i in range(len(v)):
+                    for j in range(i + 1, len(v) + 1):
+                        m = fst.FST(src, 'exec')
+                        g = m.child_from_path(path)
+                        rec = {'src': src, 'node': repr(g), 'field': fld, 'start': i, 'stop': j}
+                        try:
+                            piece = g.get_slice(i, j, fld, cut=True)
+                            mid = m.src
+                            g.put_slice(piece, i, i, fld)
+                        except Exception as e:
+                            ctx.dist['paren-roundtrip:slice-refused'] = ctx.dist.get('paren-roundtrip:slice-refused', 0) + 1
+                            continue
+                        ctx.tick(('paren-rt-slice', src, str(path), fld, i, j), 'roundtrip:paren-slice')
+                        d = reparse_diffs(m) or cmp_ast(m.a, ref, positions=False)
+                        if d:
+                            ctx.violation(f'roundtrip|paren-slice|{type(g.a).__name__}.{fld}', 'cutting a slice and putting it back where it was does not restore the tree',
+                                          {**rec, 'after_cut': mid, 'after': m.src, 'diffs': d})
+
+
 def run(ctx: Ctx):
     ctx.rule = ('(1) strings dense in quotes/backslashes/triple quotes/NUL/non-printables: real repr_str_multiline vs ast.literal_eval and vs the Coq model (output and reader); '
                 '(2) put_docstr/get_docstr with such texts at 7 hosts (indent 0..8, tabs, one-line bodies), rewrite and delete, + indentation model correspondence; '
@@ -585,6 +642,7 @@ def run(ctx: Ctx):
     run_guarded(ctx, stage_comment_ancestors)
     run_guarded(ctx, stage_roundtrip, progs)
     run_guarded(ctx, stage_clause_roundtrip)
+    run_guarded(ctx, stage_paren_roundtrip)
 
 
 def replay(path):
